@@ -777,33 +777,9 @@ def nontrivial(case, obs):
     return bool(obs.get("nontrivial"))
 
 
-def positional(fs, dims):
-    """mapping pairs stored component k with axis k"""
-    lab = eff_labels(fs["nvdim"], fs["vdims"])
-    if fs["vmap"] is None:
-        return True
-    m = {k: v for k, v in fs["vmap"]}
-    return lab is not None and all(m.get(l) == d for l, d in zip(lab, dims))
-
-
 def known(case, text):
-    if case["kind"] != "ops":
-        return None
-    fs, ms = case["field"], case["mesh"]
-    dims = mesh_dims(ms)
-    nonpos = fs["nvdim"] == len(dims) and fs["nvdim"] > 1 and not positional(fs, dims)
-    m = re.match(r"rot90\((\w+),(\w+),k=(\d)\) (\w+):", text)
-    if m:
-        a, b, k, op = m.group(1), m.group(2), int(m.group(3)), m.group(4)
-        # candidate D56: Mesh.rotate90 leaves bc in place; odd k with exactly one of the two axes periodic
-        if k % 2 == 1 and ((a in ms["bc"]) != (b in ms["bc"])):
-            return "D56"
-        if op == "laplace" and nonpos:
-            return "D55"
-        return None
-    # candidate D55: vector Laplacian relabels its result x,y,z with the positional mapping
-    if text.startswith("laplace-pairing:") and nonpos:
-        return "D55"
+    # D55 (vector Laplacian lost labels/mapping) and D56 (Mesh.rotate90 kept bc) are FIXED in /repo: the corpus keeps
+    # both witnesses as regression cases and nothing is excused any more
     return None
 
 
